@@ -394,6 +394,40 @@ def m_copied(it, args, callee, depth):
     return ("iter", CopiedIt(S.as_iter(it, args[0])))
 
 
+def m_box_new_uninit(it, args, callee, depth):
+    """Box::<T>::new_uninit(): a box whose pointer designates a fresh, not yet initialised cell (the expansion of `vec![a, b, ..]`
+    writes the array through it and hands the box to box_assume_init_into_vec_unsafe)"""
+    cell = A.Frame(None)
+    cell.locals[0] = A.UNKNOWN
+    uniq = ("adt", "core::ptr::unique::Unique", "Unique", [("ref", cell, 0, [])])
+    return ("adt", "alloc::boxed::Box", "Box", [uniq])
+
+
+def _first_array(v, depth=0):
+    if isinstance(v, tuple) and v[0] == "array":
+        return v
+    if depth < 6 and isinstance(v, tuple) and v[0] == "adt":
+        for x in v[3]:
+            r = _first_array(x, depth + 1)
+            if r is not None:
+                return r
+    return None
+
+
+def m_box_into_vec(it, args, callee, depth):
+    b = A.deref_all(it, args[0])
+    try:
+        ptr = b[3][0][3][0]
+    except (IndexError, TypeError):
+        return NotImplemented
+    if not (isinstance(ptr, tuple) and ptr[0] == "ref"):
+        return NotImplemented
+    arr = _first_array(it.load_ref(ptr))
+    if arr is None:
+        raise A.Undecided("vec![..]: the boxed array was not initialised before being turned into a Vec")
+    return ("array", list(arr[1]))
+
+
 def m_deref(it, args, callee, depth):
     """Deref::deref / DerefMut::deref_mut on a reference-like value: `&mut &mut [T]` -> the inner reference; on an owning
     container modelled as an array (Vec) -> a reference to its contents"""
@@ -415,6 +449,9 @@ MODELS = {
     "alloc::vec::Vec::<T>::with_capacity": m_vec_new,
     "alloc::vec::Vec::<T, A>::push": m_vec_push,
     "alloc::vec::Vec::<T, A>::append": m_vec_append,
+    "alloc::boxed::Box::<T>::new_uninit": m_box_new_uninit,
+    "alloc::boxed::box_assume_init_into_vec_unsafe": m_box_into_vec,
+    "slice::<impl [T]>::into_vec": m_box_into_vec,
     "alloc::vec::Vec::<T, A>::is_empty": m_vec_is_empty,
     "$slice::<impl [T]>::is_empty": m_vec_is_empty,
     "alloc::vec::Vec::<T, A>::clear": m_vec_clear,
